@@ -48,7 +48,9 @@ def strategy_options(strat):
     if strat["kind"] == "Simple":
         return "org.apache.cassandra.locator.SimpleStrategy", {"replication_factor": str(strat["rf"])}
     # a datacenter with rf 0 is a datacenter that is not listed in the options (DESIGN section 13, C26)
-    opts = {dc_name(d + 1): str(rf) for d, rf in enumerate(strat["rfs"]) if rf > 0}
+    # ("zero": "explicit": such a datacenter is listed with '0')
+    explicit = strat.get("zero") == "explicit"
+    opts = {dc_name(d + 1): str(rf) for d, rf in enumerate(strat["rfs"]) if rf > 0 or explicit}
     return "org.apache.cassandra.locator.NetworkTopologyStrategy", opts
 
 
@@ -134,6 +136,8 @@ def strat_of(s):
         strat["rf"] = int(s["rf"])
     else:
         strat["rfs"] = [int(x) for x in s["rfs"]]
+        if "zero" in s and str(s["zero"]) == "explicit":
+            strat["zero"] = "explicit"
     return strat
 
 
